@@ -18,6 +18,9 @@ pub(crate) struct PubSocket {
   core: Arc<SocketCore>,
   distributor: Distributor,
   pipe_read_to_endpoint_uri: RwLock<HashMap<usize, String>>,
+  /// Parts of a message that is being sent frame by frame (send() with MORE): they are
+  /// matched and distributed as one message together with the final part.
+  pending_parts: parking_lot::Mutex<FrameBatch>,
 }
 
 impl PubSocket {
@@ -25,6 +28,7 @@ impl PubSocket {
     Self {
       core,
       distributor: Distributor::new(),
+      pending_parts: parking_lot::Mutex::new(FrameBatch::new()),
       pipe_read_to_endpoint_uri: RwLock::new(HashMap::new()),
     }
   }
@@ -65,6 +69,22 @@ impl ISocket for PubSocket {
   async fn send(&self, msg: Msg) -> Result<(), ZmqError> {
     if !self.core.is_running() {
       return Err(ZmqError::InvalidState("Socket is closing".into()));
+    }
+    if msg.is_more() {
+      let mut parts = self.pending_parts.lock();
+      if parts.len() >= FrameBatch::MAX_USER_FRAMES - 1 {
+        *parts = FrameBatch::new();
+        return Err(ZmqError::InvalidMessage("multipart message has too many parts".into()));
+      }
+      parts.push(msg);
+      return Ok(());
+    }
+    {
+      let mut fb = std::mem::take(&mut *self.pending_parts.lock());
+      if !fb.is_empty() {
+        fb.push(msg);
+        return self.send_multipart(fb).await;
+      }
     }
     let payload_preview_str = msg
       .data()
